@@ -76,6 +76,18 @@ Theorem C17_history_refines : forall h st,
 Proof. exact history_refines. Qed.
 Print Assumptions C17_history_refines.
 
+(* value expressions that are not literals (concat onto the empty prefix of a stored, typed array): the value
+   is the plain array of the new elements - it carries nothing of the array it was derived from -, and a failing
+   expression makes the step an error *)
+Theorem C17_derived_array_is_plain : forall st j f l v,
+  eval_vexpr st (EConcatEmpty j f l) = Some v -> v = VArr l.
+Proof. exact resolve_concat_is_plain_array. Qed.
+Print Assumptions C17_derived_array_is_plain.
+Theorem C17_failed_expression_is_error : forall st e,
+  eval_vexpr st e = None -> value_ok st (resolve st e) = false.
+Proof. exact resolve_failure_is_error. Qed.
+Print Assumptions C17_failed_expression_is_error.
+
 (* ---------- the unrestricted statement is FALSE of the code: witnesses (replayed on the real
    interpreter by the harness's fixed scenarios; KNOWN_FINDINGS.txt) ---------- *)
 Definition int64_t := TEBase BInt64.
